@@ -273,6 +273,57 @@ func c04gen(cw *caseWriter, tier string, r *rng) {
 		}
 	}
 	cw.stat("c04_enumerated_cases", n)
+	// a conflict INSIDE the request, after one or more entries the follower already holds: DeleteRange succeeds, StoreLogs
+	// fails (or the delete itself fails): the cached last log must name the request entry just before the conflict - seen in
+	// the state, in the vote probe that follows (judged against the cached last entry) and in the leader's retry
+	d := 0
+	for _, f := range fl {
+		for _, l := range ll {
+			for prev := 0; prev <= 1; prev++ {
+				if len(f) < 3 || len(l) < prev+3 || (prev > 0 && f[prev-1] != l[prev-1]) {
+					continue
+				}
+				// first index (0-based) where the logs differ
+				ci := -1
+				for i := prev; i < len(l) && i < len(f); i++ {
+					if f[i] != l[i] {
+						ci = i
+						break
+					}
+				}
+				if ci < prev+1 {
+					continue // no conflict, or at the first entry of the request (the predecessor is the previous entry: enumerated above)
+				}
+				if den > 1 && r.intn(3) != 0 {
+					continue
+				}
+				var pt uint64
+				if prev > 0 {
+					pt = l[prev-1]
+				}
+				var es [][4]uint64
+				for i := prev; i < len(l); i++ {
+					es = append(es, entryOf(uint64(i+1), l[i]))
+				}
+				for _, fails := range [][]bool{{false, true}, {true}, nil} {
+					g := &nsGen{self: 1, trailing: 100, maxapp: 2, cfgtab: [][]srv{cfgSAB}}
+					g.term = 3
+					for i, t := range f {
+						g.entries = append(g.entries, entryOf(uint64(i+1), t))
+					}
+					ev := evAppend(3, 3, 3, uint64(prev), pt, es, 0, 0, nil)
+					first := ev
+					if fails != nil {
+						first = append(append([]uint64(nil), ev[:len(ev)-2]...), tail(0, fails)...)
+					}
+					g.events = [][]uint64{first, evVote(4, 2, 2, uint64(ci), l[ci-1], true, 0, nil), ev, evAppend(4, 2, 2, 0, 0, nil, 0, 0, nil)}
+					nsRun(cw, cw.tag("d"), g.encode(), c04monitor(cw))
+					d++
+				}
+			}
+		}
+	}
+	cw.stat("c04_conflict_inside_request_cases", d)
 	// with a snapshot boundary: snapshot at k, log above it
 	m := 0
 	for _, f := range fl {
